@@ -335,6 +335,7 @@ def bloom_items(seed):
         "byte0": ("item", "00"),
         "h160": ("hash160", h160.hex()),
         "addr": ("address", h160.hex()),            # the same 20 bytes through add_address (base58 text)
+        "addr2": ("address2", h160.hex()),          # ... through the address text of a network with a TWO-byte version prefix
         "spend1": ("spendable", txh.hex(), 1),
         "spendmax": ("spendable", seed_bytes(seed, "c19.bloom.txhash", 32).hex(), 2 ** 32 - 1),
     }
@@ -350,7 +351,7 @@ def item_bytes(item):
 class Bloom(Driver):
     id = "C19.bloom"
     rule = ("state = BloomFilter after a history of insertions; every sequence (with repetition) of <= 3 items from a "
-            "6-item alphabet x sizes x hash-function counts x tweaks; after every insertion filter_bytes must equal "
+            "7-item alphabet x sizes x hash-function counts x tweaks; after every insertion filter_bytes must equal "
             "the BIP37 filter of the inserted set and every prescribed bit must test true; non-trivial = >= 2 "
             "insertions")
 
@@ -359,10 +360,10 @@ class Bloom(Driver):
         self.sizes = [1, 2, 3, 8, 36000]
         self.nfuncs = [1, 2, 11, 50]
         self.tweaks = [0, 1, 2 ** 31, 2 ** 32 - 1] + ([] if tier == "quick" else [2 ** 32, 2 ** 32 + 5, 127])
-        self.names = ["empty", "byte0", "h160", "addr", "spend1", "spendmax"]
+        self.names = ["empty", "byte0", "h160", "addr", "addr2", "spend1", "spendmax"]
         self.maxlen = 3
         self.bound = dict(sizes=self.sizes, hash_function_counts=self.nfuncs, tweaks=self.tweaks, items=self.names,
-                          max_insertions=self.maxlen, histories_per_parameter_point=sum(6 ** k for k in range(0, 4)))
+                          max_insertions=self.maxlen, histories_per_parameter_point=sum(7 ** k for k in range(0, 4)))
 
     def units(self):
         # one unit = one (size, count): all tweaks are explored inside it, in one process
@@ -400,6 +401,8 @@ class Bloom(Driver):
                     bf.add_hash160(raw)
                 elif it[0] == "address":
                     bf.add_address(refaddr(raw))
+                elif it[0] == "address2":
+                    bf.add_address(refaddr(raw, b"\x1c\xb8"))      # Zcash t-address prefix
                 else:
                     bf.add_spendable(network.tx.Spendable(1000, b"\x51", bytes.fromhex(it[1]), int(it[2])))
                 done.append(raw)
@@ -445,9 +448,9 @@ def short(b):
     return h if len(h) <= 64 else "%s..(%d bytes, sha256 %s)" % (h[:32], len(b), hashlib.sha256(bytes(b)).hexdigest()[:16])
 
 
-def refaddr(h160):
+def refaddr(h160, prefix=b"\x00"):
     from ..ref import bip32 as refb
-    return refb.b58check(b"\x00" + h160)
+    return refb.b58check(prefix + h160)
 
 
 DRIVERS = [Digests, Fallback, Murmur, Bloom]
